@@ -31,17 +31,17 @@ CHECKS = {
         note="Reference cycles are realised as files and parsed through json-ref-dict + statham.__main__.",
         ref="5/C20"),
     "C02": dict(
-        technique="TLC-enumerated reference graphs (MC_Refs.tla: nodes, $ref edges at every schema position, two files, clashing titles) driven through the real statham.__main__.main; generated module executed and compared with the directly parsed models; facts adjudicated by Trace_Refs (R_C02) incl. Draft6.tla verdicts of the generated root",
+        technique="TLC-enumerated reference graphs (MC_Refs.tla: nodes, $ref edges at every schema position, two files, clashing titles) driven through the real statham.__main__.main; generated module executed and compared with the directly parsed models; facts adjudicated by Trace_Refs (R_C02) incl. Draft6.tla verdicts of the generated root; PyModule.tla / MC_Py predict the module structure (declaration order, class arguments, docstring, property lines) which is compared with the real text read back by ast",
         text="Every document set within the bound (<=3 schema nodes, <=2-3 $ref edges over 6-11 positions, local and cross-file references, diamonds, unreachable definitions, equal explicit titles) goes through the real command-line function; the module must execute with only its own imports, declare every class once and before use, exactly the classes of the direct parse, each equal to it, and the generated root must give the Draft-6 verdict on the value universe.",
         note="'one class per distinct object schema' is judged against the directly parsed tree (bijection by name + equality); statements are analysed with Python's ast; Draft6.tla resolves $ref inside the document set.",
         ref="5/C02"),
     "C03": dict(
-        technique="every exported document state parsed, serialized with the real serialize_json, and the document adjudicated by TLC (Meta.tla metaschema, reference resolution, Draft6.tla verdict sets against the element's observed verdicts on the value universe)",
+        technique="every exported document state parsed, serialized with the real serialize_json, and the document adjudicated by TLC (Meta.tla metaschema, reference resolution, Draft6.tla verdict sets against the element's observed verdicts on the value universe); Serializers.tla / MC_Ser: the same clause checked by TLC on the model's serialize_json, real output compared with the predicted document",
         text="serialize_json output of every element tree of the document family is checked by TLC to be a well-formed Draft-6 schema with resolvable acyclic references that gives, for each of 48 values, the verdict the element itself gave.",
         note="Element trees are the parser's image plus DSL rebuilds; DSL-only shapes (explicit required next to properties, renamed properties) are reached through parsed documents with the same shape.",
         ref="5/C03"),
     "C06": dict(
-        technique="round trips on every exported document state: serialize(parse(doc)) -> parse -> serialize through the real dereferencing path, and the same starting from the DSL rebuild of the MODEL's element (serializer image reached without the parser); exec of generated Python; equalities adjudicated by TLC (R_C06)",
+        technique="round trips on every exported document state: serialize(parse(doc)) -> parse -> serialize through the real dereferencing path, and the same starting from the DSL rebuild of the MODEL's element (serializer image reached without the parser); exec of generated Python; equalities adjudicated by TLC (C06_Clause); MC_Ser checks the round trip on the model (ToJsonDoc . Parse . materialize) in every state",
         text="J0 = serialize(parse(doc)) and Jm = serialize(DSL(model element)) must both be fixpoints of serialize . parse; executing the generated module must yield classes equal to the parsed ones (real == and structural projection).",
         note="Jm uses the implementation model's Parse(doc) as the description of the normal form, so a parser change that alters the first read is visible.",
         ref="5/C06"),
@@ -101,7 +101,7 @@ CHECKS = {
         note="Bound properties are covered through their enclosing element (their repr omits source by design when it equals the name).",
         ref="5/C18"),
     "C19": dict(
-        technique="every exported document placed under a property, a required property and array items of a model through the real parser; annotation text taken from the generated source, parsed to a type expression and adjudicated by TLC (HasType) against the runtime values of all accepted inputs",
+        technique="every exported document placed under a property, a required property and array items of a model through the real parser; annotation text taken from the generated source, parsed to a type expression and adjudicated by TLC (HasType) against the runtime values of all accepted inputs; Annot.tla / MC_Ser: HasType(model value, model annotation) checked in every state, real annotation compared with the predicted one",
         text="HasType reads the annotation as a type checker (List element types, Union members, NotPassed only under Maybe, int under float); non-Maybe annotations require required-or-defaulted and presence.",
         note="Documents with a default invalid for its schema are outside the property's quantifier (AllDefaultsValid).",
         ref="5/C19"),
